@@ -1,0 +1,103 @@
+//go:build verif
+
+package mvp8_0
+
+import (
+	"github.com/teivah/majorana/common/latency"
+	"github.com/teivah/majorana/proc/comp"
+	"github.com/teivah/majorana/risc"
+)
+
+func verifSnapshot(ctx *risc.Context, m *msi, ccs []*cacheController, l3 *comp.LRUCache) comp.VerifSnap {
+	s := comp.VerifSnap{LineSize: l1DCacheLineSize, L3LineSize: l3CacheLineSize, Memory: ctx.Memory, L3: comp.VerifLines(l3.ExistingLines())}
+	for _, cc := range ccs {
+		s.Cores = append(s.Cores, comp.VerifCore{
+			Lines:     comp.VerifLines(cc.l1d.Lines()),
+			Resident:  comp.VerifLines(cc.l1d.ExistingLines()),
+			ReadBusy:  !cc.read.IsStart(),
+			WriteBusy: !cc.write.IsStart(),
+			SnoopBusy: !cc.snoop.IsStart(),
+		})
+	}
+	for e, st := range m.states {
+		s.States = append(s.States, comp.VerifState{Core: e.id, Addr: int32(e.alignedAddr), State: st})
+	}
+	for r, info := range m.commands {
+		s.Commands = append(s.Commands, comp.VerifCommand{Core: r.id, Addr: int32(r.alignedAddr), Request: r.request, Done: info.doneFlag})
+	}
+	for a, sem := range m.pendings {
+		rd, wr := sem.VerifCounts()
+		s.Sems = append(s.Sems, comp.VerifSem{Addr: int32(a), Read: rd, Write: wr})
+	}
+	return s
+}
+
+// VerifSnapshot returns a read-only view of the coherence state.
+func (m *CPU) VerifSnapshot() comp.VerifSnap {
+	return verifSnapshot(m.ctx, m.msi, m.cacheControllers, m.l3)
+}
+
+// VerifRig is the cache controllers + MSI directory + L3 + memory without a pipeline.
+type VerifRig struct {
+	ctx *risc.Context
+	mmu *memoryManagementUnit
+	msi *msi
+	l3  *comp.LRUCache
+	ccs []*cacheController
+}
+
+// NewVerifRig builds the coherence machinery of a machine with the given cores.
+func NewVerifRig(memoryBytes, cores int) *VerifRig {
+	ctx := risc.NewContext(false, memoryBytes, true)
+	mmu := newMemoryManagementUnit(ctx)
+	m := newMSI()
+	l3 := comp.NewLRUCache(l3CacheLineSize, l3CacheSize)
+	r := &VerifRig{ctx: ctx, mmu: mmu, msi: m, l3: l3}
+	for i := 0; i < cores; i++ {
+		r.ccs = append(r.ccs, newCacheController(i, ctx, mmu, m, l3))
+	}
+	return r
+}
+
+func (r *VerifRig) Context() *risc.Context { return r.ctx }
+func (r *VerifRig) Cores() int             { return len(r.ccs) }
+
+// Snoop steps the snoop coroutine of one core.
+func (r *VerifRig) Snoop(core int) { r.ccs[core].snoop.Cycle(struct{}{}) }
+
+// Read steps a read request of one core by one cycle.
+func (r *VerifRig) Read(core, cycle int, addrs []int32) ([]int8, bool) {
+	resp := r.ccs[core].read.Cycle(ccReadReq{cycle, addrs})
+	return resp.data, resp.done
+}
+
+// Write steps a write request of one core by one cycle.
+func (r *VerifRig) Write(core, cycle int, addrs []int32, data []int8) bool {
+	return r.ccs[core].write.Cycle(ccWriteReq{cycle, addrs, data}).done
+}
+
+// Cancel is what a pipeline flush does to the core's in-flight request.
+func (r *VerifRig) Cancel(core int) { r.ccs[core].flush() }
+
+// Idle tells whether the core has no request or snoop work in progress.
+func (r *VerifRig) Idle(core int) bool { return r.ccs[core].isEmpty() }
+
+// Export is the end-of-run write-back (L1 to L3/memory, then L3 to memory), as CPU.Run does it.
+func (r *VerifRig) Export() int {
+	n := 0
+	for _, cc := range r.ccs {
+		n += cc.writeBack()
+	}
+	for _, line := range r.l3.Lines() {
+		mu := r.msi.getL3Lock([]int32{int32(line.Boundary[0])})
+		if !mu.TryLock() {
+			panic("invalid state")
+		}
+		mu.Unlock()
+		n += latency.MemoryAccess
+		r.mmu.writeToMemory(line.Boundary[0], line.Data)
+	}
+	return n
+}
+
+func (r *VerifRig) Snapshot() comp.VerifSnap { return verifSnapshot(r.ctx, r.msi, r.ccs, r.l3) }
